@@ -30,7 +30,22 @@ import (
 	"sort"
 	"strconv"
 	"strings"
+
+	"golang.org/x/tools/go/packages"
 )
+
+// grpcstatusLoad: every package of the area is type-checked ONCE per run (the extractors only read it); each load shells out
+// to `go list`, which is what a check costs on a loaded host.
+var grpcstatusLoaded = map[string]*packages.Package{}
+
+func grpcstatusLoad(pkgPath string) *packages.Package {
+	if p := grpcstatusLoaded[pkgPath]; p != nil {
+		return p
+	}
+	p := load(pkgPath)
+	grpcstatusLoaded[pkgPath] = p
+	return p
+}
 
 func grpcstatusR6ParseDir(t *tr, rel string) []*ast.File {
 	dir := filepath.Join(repo, rel)
